@@ -653,6 +653,33 @@ let oo_explore () =
      done
    with End_of_file -> ())
 
+
+(* ---- C07: lock-order checker ---- *)
+let lock_check () =
+  (try
+     while true do
+       let line = input_line stdin in
+       if String.length line > 0 && line.[0] = '(' then begin
+         match parse_sx line with
+         | [L [A "lc"; bound; L (A "levels" :: lv); L (A "down" :: dn); L (A "edges" :: es)]] ->
+             let tab = Hashtbl.create 64 in
+             List.iter (function L [c; l] -> Hashtbl.replace tab (int_of_nat (atom_nat c)) (atom_nat l) | x -> failwith ("bad level " ^ sx_to_string x)) lv;
+             let downs = List.map (fun x -> int_of_nat (atom_nat x)) dn in
+             let level c = (try Hashtbl.find tab (int_of_nat c) with Not_found -> nat_of_int 0) in
+             let up l = not (List.mem (int_of_nat l) downs) in
+             let edges = List.map (function L [a; b; c; d] -> { e_hcls = atom_nat a; e_hid = atom_nat b; e_wcls = atom_nat c; e_wid = atom_nat d }
+                                          | x -> failwith ("bad edge " ^ sx_to_string x)) es in
+             let b = atom_nat bound in
+             if edges_ok b level up edges then print_endline "ok"
+             else begin
+               let e = List.find (fun e -> not (edge_ok b level up e)) edges in
+               Printf.printf "(bad %d %d %d %d)\n" (int_of_nat e.e_hcls) (int_of_nat e.e_hid) (int_of_nat e.e_wcls) (int_of_nat e.e_wid)
+             end
+         | _ -> print_endline "(error \"bad lc\")"
+       end
+     done
+   with End_of_file -> ())
+
 let () =
   match Array.to_list Sys.argv with
   | _ :: "run-seq" :: fuel :: _ -> run_seq (int_of_string fuel)
@@ -664,5 +691,6 @@ let () =
   | _ :: "subj-explore" :: _ -> subj_explore ()
   | _ :: "comb-explore" :: _ -> comb_explore ()
   | _ :: "oo-explore" :: _ -> oo_explore ()
+  | _ :: "lock-check" :: _ -> lock_check ()
   | _ :: "subj-oracle" :: _ -> subj_oracle_cmd ()
   | _ -> prerr_endline "usage: driver run-seq FUEL < scenarios"; exit 2
